@@ -297,6 +297,31 @@ func famHostile(w *World) {
 			if err := c.ServerHandshake("10.0.8.1:6000"); err != nil {
 				return
 			}
+			if mode == 2 && scnChance(1, 2) {
+				// unsolicited terminal frames for the ids its peer is about to use (message ids are
+				// sequential and therefore predictable): they race with the peer's set-up of the
+				// very calls they name
+				k := 2 + scn(20)
+				gapUs := []int{0, 0, 50, 200, 1000}[scn(5)]
+				w.Net.Fired["peer.unsolicited-terminal"]++
+				simrt.Go("h/hostile-unsolicited", func() {
+					for i := 0; i < k; i++ {
+						id := uint32(1 + scn(6))
+						var b []byte
+						if scnChance(1, 2) {
+							b = wire.EncError(id, []byte{1, 3, 5, 7}[scn(4)], wire.Span{}, "unsolicited")
+						} else {
+							b = wire.EncCall(wire.CallSpec{Type: wire.TCallRes, ID: id, CsumType: wire.CsumNone, Args: [3][]byte{nil, []byte("r;x\n"), []byte("y")}})[0]
+						}
+						if c.Send(b) != nil {
+							return
+						}
+						if gapUs > 0 {
+							sleep(time.Duration(gapUs) * time.Microsecond)
+						}
+					}
+				})
+			}
 			for {
 				f, err := c.ReadFrame(10 * time.Second)
 				if err != nil {
